@@ -633,3 +633,84 @@ func (e *Engine) findGlobal(name string) *ssa.Global {
 	}
 	return nil
 }
+
+// OwnershipViolations checks every //verif:owns declaration of the loaded
+// packages: a struct field may be stored to only by the listed functions
+// (closures count as their enclosing function).
+func (e *Engine) OwnershipViolations() (checked []string, bad []string) {
+	loaded := map[string]*ssa.Package{}
+	for _, sp := range e.spkgs {
+		if sp != nil {
+			loaded[sp.Pkg.Path()] = sp
+		}
+	}
+	for name, d := range e.defs {
+		if d.Owns == nil || !strings.HasPrefix(name, "owns:") {
+			continue
+		}
+		rest := strings.TrimPrefix(name, "owns:")
+		j := strings.LastIndex(rest, ":")
+		pkgPath, tf := rest[:j], rest[j+1:]
+		sp := loaded[pkgPath]
+		if sp == nil {
+			continue
+		}
+		k := strings.LastIndex(tf, ".")
+		if k < 0 {
+			bad = append(bad, "owns "+tf+": expected Type.field")
+			continue
+		}
+		tname, fname := tf[:k], tf[k+1:]
+		obj, ok := sp.Pkg.Scope().Lookup(tname).(*types.TypeName)
+		if !ok {
+			bad = append(bad, "owns "+tf+": type not found (contract target missing)")
+			continue
+		}
+		comp := fieldComp(obj.Type(), fname)
+		allowed := map[string]bool{}
+		for _, a := range d.Owns {
+			allowed[a] = true
+		}
+		found := false
+		for fn := range e.allFuncs {
+			if fn.Blocks == nil {
+				continue
+			}
+			root := fn
+			for root.Parent() != nil {
+				root = root.Parent()
+			}
+			if root.Pkg == nil {
+				continue
+			}
+			ms := compSet{}
+			for _, b := range fn.Blocks {
+				for _, in := range b.Instrs {
+					if st, ok := in.(*ssa.Store); ok {
+						addrComps(st.Addr, ms)
+					}
+				}
+			}
+			if _, writes := ms[comp]; !writes {
+				continue
+			}
+			found = true
+			ok := false
+			for _, n := range funcNames(root) {
+				if allowed[n] {
+					ok = true
+				}
+			}
+			if !ok {
+				bad = append(bad, fmt.Sprintf("owns %s: %s stores to the field but is not among %v", tf, funcNames(root)[1], d.Owns))
+			}
+		}
+		if !found {
+			bad = append(bad, "owns "+tf+": no function stores to this field (contract target missing)")
+		}
+		checked = append(checked, tf+" : "+strings.Join(d.Owns, ", "))
+	}
+	sort.Strings(checked)
+	sort.Strings(bad)
+	return
+}
